@@ -51,6 +51,18 @@ CHECKS = {
               "replayed, logged and validated by Trace_SignalCache."),
         design_ref="DESIGN.md section 4, C04",
         note="freshness oracle = fresh object of the same class (same library code, by design); float64 records; trusted: TLC 1.8, numpy, copy.deepcopy"),
+    "C05": dict(
+        engine="Ownership",
+        technique="TLA+ heap model (who aliases whom, container type), TLC exhaustive + -simulate behaviours replayed on real objects with real caller arrays; recorded sessions and pure-call frame conditions validated by a TLC trace spec",
+        category="model_checking",
+        text=("Ownership: NoAlias / CallerIntact / ObjectIntact / ValuesNumericArray on the complete state space of the repaired model, "
+              "TLC counterexample on the as-found model. Binding: every operation of the model is executed on real Signal/AccSignal objects "
+              "from five different prefixes, TLC -simulate behaviours (depth 30/60) are replayed; after every call the projection "
+              "(numpy.shares_memory with each caller container, SHA-256 of the caller's bytes, container/dtype/len/time grid of the "
+              "object) is logged and validated by Trace_Ownership. Pure calls: 85 array-/signal-level functions x {float64,int64} x "
+              "{ndarray,list}: argument digests before/after and result digests of two successive calls; TLC evaluates the frame condition."),
+        design_ref="DESIGN.md section 4, C05",
+        note="sessions use one float ndarray and one float list as caller containers; pure-call part is a sampled frame condition (one argument set per function and variant); trusted: TLC 1.8, numpy.shares_memory, sha256"),
 }
 
 NOT_YET = {}
